@@ -155,3 +155,27 @@ Theorem C07_two_writes : forall zh H h a p e v a1 h1 h1' q e' w a2 h2 fuel r h''
   c <= N.of_nat (length p + length q).
 Proof. exact h_set_path_twice_bound. Qed.
 Print Assumptions C07_two_writes.
+
+(* ---------------- 4. machine level: any single step, sub-views and hooks included ---------------- *)
+(* the Setter allocates exactly one cell — a pair with an unset memo — per level of its path *)
+Theorem C07_set_path_allocates : forall zh p h a e v a' h',
+  h_set_path zh h a p e v = OK (a', h') ->
+  Pos.to_nat (hp_next h') = (Pos.to_nat (hp_next h) + length p)%nat.
+Proof. exact h_set_path_allocates. Qed.
+Print Assumptions C07_set_path_allocates.
+
+(* from a state in which the tree of every handle is fully hashed, after ANY step (a mutation
+   through any chain of sub-view hooks; the inserted value is a literal, allocated by the step,
+   or the already hashed backing of a handle) a hash-tree-root request on ANY handle performs at
+   most one hash per cell the step allocated.  The cells a mutation allocates are the path
+   pairs of its Setter calls (C07_set_path_allocates: one per level; an append/pop has two
+   Setter calls, each hook parent adds one) plus the new leaves (at most two) and the tree of
+   a literal value.  Needs Hnz (distinct cells are counted once). *)
+Theorem C07_step_cost : forall H zh st o j r st2 c,
+  Hnz H -> hm_inv zh st -> h_cell (m_store _ _ st) true_addr = Some (CLeaf true_chunk) ->
+  (forall k x, nth_error (m_handles _ _ st) k = Some x -> memoised (m_store _ _ st) (h_back _ x)) ->
+  hm_hash H (fst (hm_step zh st o)) j = OK (r, st2, c) ->
+  c <= N.of_nat (Pos.to_nat (hp_next (m_store _ _ (fst (hm_step zh st o)))) -
+                 Pos.to_nat (hp_next (m_store _ _ st))).
+Proof. exact hm_step_hash_cost. Qed.
+Print Assumptions C07_step_cost.
